@@ -324,7 +324,7 @@ Definition align_slots (b : backend) : list endpoint :=
 
 (* ------------------------------------------------------------------ Shrink *)
 
-(* backendsMatch (types/backends.go:110): everything but PathsMap, pathConfig, Endpoints equal,
+(* backendsMatch (types/backends.go): everything but PathsMap, pathConfig, Endpoints equal,
    and the non-empty endpoints are the same set of struct values *)
 Definition shrink_blank : list string := ["PathsMap"; "pathConfig"; "Endpoints"].
 Definition subset_eps (a b : list endpoint) : bool :=
@@ -376,7 +376,13 @@ Definition check_host_pair (old cur : host) (resp : nat -> answer) : bool * list
 
 (* ------------------------------------------------------------------ one update *)
 
-Record bpair := mkBP { bp_old : option backend; bp_cur : backend; bp_resp : nat -> answer }.
+(* bp_early: the field digests of the re-created backend as Backends.Shrink sees them. Shrink runs
+   before WriteBackendMaps, which assigns PathsMap and PathsDefaultHostMap (and builds pathConfig) on
+   the ItemsAdd backends; the dynamic updater runs after it and sees b_cfg (bp_cur). *)
+Record bpair := mkBP { bp_old : option backend; bp_cur : backend; bp_early : list N; bp_resp : nat -> answer }.
+Definition shrink_view (p : bpair) : backend :=
+  mkB (b_id (bp_cur p)) (bp_early p) (b_dyn (bp_cur p)) (b_minfree (bp_cur p)) (b_block (bp_cur p))
+      (b_preserve (bp_cur p)) (b_resolver (bp_cur p)) (b_initw (bp_cur p)) (b_eps (bp_cur p)).
 Record hpair := mkHP { hp_old : option host; hp_cur : host; hp_resp : nat -> answer }.
 
 Record bres := mkBR { br_shrunk : bool; br_updated : bool; br_cmds : list cmd; br_eps : list endpoint; br_panic : bool }.
@@ -386,7 +392,7 @@ Definition backend_step (run_dyn : bool) (p : bpair) : bres :=
   match bp_old p with
   | None => mkBR false false [] (b_eps (bp_cur p)) false           (* added backend *)
   | Some old =>
-    if shrink_keeps_old (bp_cur p) old then mkBR true true [] (b_eps old) false
+    if shrink_keeps_old (shrink_view p) old then mkBR true true [] (b_eps old) false
     else if run_dyn then
       let r := check_backend_pair old (bp_cur p) (bp_resp p) in
       mkBR false (r_updated r) (r_cmds r) (r_eps r) (r_panic r)
